@@ -127,7 +127,7 @@ def run(ctx, rep):
     farm = [a for m in find_all(ce['body'], lambda n: n.get('k') == 'match') for a in m['arms'] if render_pat(a['pat']).startswith('Expr::Function')]
     ok = False
     if len(farm) == 1:
-        order = [n['method'] for n in find_all(farm[0]['body'], lambda n: n.get('k') == 'mcall') if n['method'] in ('define', 'new_context')]
+        order = [n['method'] for n in find_all(S.expanded('src/compiler.rs', 'Compiler', farm[0]['body']), lambda n: n.get('k') == 'mcall') if n['method'] in ('define', 'new_context')]
         ok = order[:2] == ['define', 'new_context']
     rep.ob(ok, 'R12.3', 'compiler::Compiler::compile_expression', 'Expr::Function', 'define(name) precedes new_context() (the body can call itself)', 'src/compiler.rs')
     check_frame_arith(ctx, rep, 'R12.4')
